@@ -92,9 +92,7 @@ def emit(cfg, parsed, src, fault, param):
         other = parsed[param % len(parsed)]
         kw["request_id"] = other["request_id"]
     elif fault == "community":
-        if cfg.version == "v3":
-            kw["ctx_engine_id"] = b"ctx"  # context engine id is not a credential: must still be delivered
-        else:
+        if cfg.version != "v3":
             kw["community"] = (cfg.community + "x").encode() if param & 1 else b""
     elif fault == "version":
         kw["version"] = {"v1": 1, "v2c": 0, "v3": 1}[cfg.version] if param & 1 else {"v1": 3, "v2c": 3, "v3": 0}[cfg.version]
